@@ -153,6 +153,12 @@ def run(ctx, use_model=True):
                     for present in (False, True):
                         # dry run to count the write calls
                         _b, _a, _t, exc0, n_writes = run_once(doc, fmt, workdir, tmpdir, name, present, None, 10 ** 9)
+                        if n_writes == 0 and exc0 is None and _a.get(os.path.normpath(name)) is not None:
+                            # the file was written but not through the stream this harness wraps (os.fdopen in prov.model): faults
+                            # cannot be injected any more. That is a broken tie, not a failure of the property.
+                            fails.append(Failure("corr", None, "fault injection: serialize(path) no longer writes through os.fdopen/shutil.move as "
+                                                 "modelled; no fault point can be exercised", {"name": name, "format": fmt}))
+                            return fails
                         faults = [None] + list(range(1, n_writes + 3))
                         if ctx.tier != "thorough" and len(faults) > 6:
                             faults = [None, 1, n_writes, n_writes + 1, n_writes + 2] + g.rng.sample(range(2, n_writes), min(2, max(0, n_writes - 2)))
